@@ -881,6 +881,8 @@ func (g *genr) focused(p pair, depth int) *node {
 var bodyTexts = []string{
 	"Hi ", " and ", "Total: ", ", thanks!", " ", "bob@nyaruka.com ", " @@ ", "100% (sure) ", ` say "x" `, ` back\slash `, "\n",
 	" é 日本 ", " @@flow.q1 ", " @twitter_handle ", " ) ( ", "@@", " a @ b ", "! ", ": ", "; x", " @nyaruka, ",
+	// '@' followed by names that are not legacy top-levels, in every letter case (mentions, e-mail domains): literal text
+	"Bob.Smith@Nyaruka.COM ", " @NyarukaHQ ", " @Twitter_Handle, ", " mail Jo@Example.Org now ", " @Ünïcode ", " @İstanbul ", " @CONTACTS ", " @Flowers.Red ", " @Stepper ", " @ΣΊΣΥΦΟΣ ", " @ǅ ", " X@Y.Z ",
 }
 
 // template builds a template around the given expressions.
